@@ -172,7 +172,40 @@ def entry_calls(fx, b, start, stop_blocks):
     return out
 
 
+# UTR #53 (Unicode Arabic Mark Rendering), section 3: Modifier Combining Marks
+MCM = {0x0654, 0x0655, 0x0658, 0x06DC, 0x06E3, 0x06E7, 0x06E8, 0x08CA, 0x08CB, 0x08CD, 0x08CE, 0x08CF, 0x08D3, 0x08F3}
+
+
+def t17_mcm(run, fx):
+    import tableread
+    rule = "T17-MCM"
+    run.rule(rule, "scripts::arabic::is_modifier_combining_mark is true exactly for the 14 Modifier Combining Marks of UTR #53 (the only marks the "
+                   "AMTRA steps 2b/2c may move ahead of lower-class marks)")
+    b = fx.body("scripts::arabic::is_modifier_combining_mark")
+    if b is None:
+        return run.anchor_missing(rule, "scripts::arabic::is_modifier_combining_mark")
+    try:
+        f, bps = tableread.scalar_fn(b)
+    except tableread.TableShape as e:
+        return run.fail(rule, "mcm:shape", "is_modifier_combining_mark is not a decision table: %s" % e, "%s:%s" % (b.file, b.line))
+    pts = set(MCM) | set(bps)
+    for v in list(pts):
+        pts |= {v - 1, v + 1}
+    bad = []
+    for v in sorted(x for x in pts if 0 <= x <= 0x10FFFF):
+        r = f(v)
+        got = bool(r[1]) if r[0] == "some" else False
+        if got != (v in MCM):
+            bad.append("U+%04X -> %s" % (v, got))
+    if bad:
+        run.fail(rule, "mcm:" + ",".join(bad)[:80], "is_modifier_combining_mark differs from UTR #53: %s" % bad, "%s:%s" % (b.file, b.line))
+    else:
+        run.ok(rule, "14 modifier combining marks, %d points evaluated" % len(pts))
+
+
 def check(run, fx, tier, floors=True):
+    if floors or fx.body("scripts::arabic::is_modifier_combining_mark") is not None:
+        t17_mcm(run, fx)
     r = t17_disp(run, fx)
     rule = "T17-EFF"
     run.rule(rule, "every use of the character buffer's mutable capability reachable from preprocess_text is a stable permutation primitive or a "
